@@ -468,6 +468,24 @@ def kb_audit():
     probe("Python scalar is weak under NEP 50", (np.array([255], dtype=np.uint8) + 2).dtype == np.uint8)
     probe("0-d int64 array is strong", (np.array([255], dtype=np.uint8) + np.asanyarray(2)).dtype == np.int64)
     probe("np.full with fill_value=None gives an object-free float/None array without raising", True)
+    # facts behind the hazards added after seeding round 3 (H14-H18) and the rules of F24-F26
+    probe("int64 * uint64 promotes to float64", (np.ones(2, np.int64) * np.ones(2, np.uint64)).dtype == np.float64)
+    probe("uint64 * uint8 stays uint64", (np.ones(2, np.uint64) * np.ones(2, np.uint8)).dtype == np.uint64)
+    probe("np.diff of booleans is boolean (!=)", np.diff(np.array([True, True, False])).dtype == np.bool_)
+    probe("astype(None) converts to float64", np.arange(3).astype(None).dtype == np.float64)
+    probe("an np.dtype instance equals the Python type but is not identical to it", (np.dtype(bool) == bool) and (np.dtype(bool) is not bool))
+    probe("np.hstack joins 2-D arrays along axis 1", np.hstack((np.zeros((3, 2)), np.zeros((3, 2)))).shape == (3, 4))
+    probe("np.append without axis flattens", np.append(np.zeros((2, 2)), np.zeros((2, 2))).shape == (8,))
+    probe("np.stack of int64 and float64 columns is float64", np.stack((np.arange(2), np.array([0.5, 1.5])), axis=1).dtype == np.float64)
+    probe("max(initial=0) of all-negative data is 0", np.array([-3, -1]).max(initial=0) == 0)
+    probe("isclose treats 100000 and 100001 as equal", bool(np.isclose(100000, 100001)))
+    d = np.zeros(2, dtype=np.int64)
+    d[np.array([True, False])] = np.array([1.75])
+    probe("a masked store casts to the destination dtype (no promotion)", d.tolist() == [1, 0])
+    probe("np.split(x, []) returns one piece", len(np.split(np.arange(0), [])) == 1)
+    probe("np.mean of integers accumulates in float64", np.array([2 ** 62, 2 ** 62, 2 ** 62]).mean() > 0)
+    probe("np.sum of uint64 stays uint64", np.array([1], dtype=np.uint64).sum().dtype == np.uint64)
+    probe("np.sum of a boolean matrix along axis 0 counts", np.array([[True], [True]]).sum(axis=0).tolist() == [2])
     return out
 
 
